@@ -40,6 +40,11 @@ def backward_faults(ctx: Ctx, P):
     for pos, bad in enumerate(reach):
         yield "parameter frozen after the forward pass", pos, {**base, "inputs": reach, "freeze": [bad]}
         yield "parameter frozen after the forward pass (inputs defaulted)", pos, {**base, "inputs": None, "freeze": [bad]}
+    rgl = [i for i in P.leaves() if P.nodes[i].rg]
+    if rgl:
+        # a leaf listed among the tensors while `inputs` is omitted: default discovery has no graph to walk
+        yield "leaf among the tensors, inputs defaulted", 0, {**base, "tensors": tensors + [rng.choice(rgl)], "inputs": None,
+                                                               "only_if_rejected": True}
     yield "aggregator rejects (row count)", 0, {**base, "agg": ("const", w + [1])}
     yield "aggregator returns wrong length", 0, {**base, "agg": ("badlen", 1 + sum(numel(P.nodes[i].shape) for i in good))}
 
@@ -133,6 +138,16 @@ def run_fault(ctx: Ctx, api, P, kind, pos, call, reps):
                                     call["tasks"] if call["tasks"] is not None else call["m_tasks"],
                                     call["shared"] if call["shared"] is not None else call["m_shared"],
                                     call["agg"], call["chunk"], retain, pre, report, freeze=fr)
+        if call.get("only_if_rejected"):
+            # not one of the rejections the property enumerates: IF the call is refused, nothing may have changed
+            ctx.count("fault", f"{api}: {kind}")
+            ctx.count("raised", rerr)
+            if rerr is not None and not snapshot_ok(pre, rg):
+                ctx.violation(f"{api} rejected the call ({rerr}: {kind}) AFTER modifying .grad: before {fmt_grads(pre)}, after "
+                              f"{fmt_grads(rg)}", {"api": api, "fault": kind, "program": P.describe(), "prog_sx": sx(P.to_sx()),
+                                                  "call": {k: str(v) for k, v in call.items()}})
+                return
+            continue
         ctx.case((api, kind, pos, tuple(P.describe()), sx([str(v) for v in call.values()]), rep), nontrivial=True,
                  sample={"api": api, "fault": kind, "position": pos, "program": P.describe(),
                          "call": {k: str(v) for k, v in call.items()}, "raised": rerr})
